@@ -33,6 +33,9 @@ def main():
         if prop == "C11":
             import c11
             return c11.run(args)
+        if prop == "C07":
+            import c07
+            return c07.run(args)
         if prop == "C02":
             import c02
             return c02.run(args)
